@@ -129,6 +129,9 @@ def gen_case(rng, mixed):
                 f["kind"] = "move_coord"
             f["to"] = rng.randrange(0, nodes)
         faults.append(f)
+    if nodes >= 2 and rng.random() < 0.12:
+        # the coordinator's broker goes down in the middle of a transaction, the role moves to a live broker
+        faults.append({"api": rng.choice(COORD_APIS), "nth": rng.randrange(0, 4), "kind": "coord_node_down"})
     if rng.random() < 0.35:
         # one partition's leader is slow for the whole run
         faults.append({"api": "Produce", "nth": None, "count": None, "kind": "delay",
@@ -276,6 +279,26 @@ def exact_families():
                           ([{"api": "InitProducerId", "nth": 0, "kind": "error", "code": 15}] if nth else []), False, 1000 + k)
                 c_["expect"] = ["committed"]
                 out.append(c_)
+    # family K: the broker hosting the transaction coordinator becomes unreachable (no NOT_COORDINATOR answer,
+    # connects are refused) while the role moves to a live broker - at every transactional request type and
+    # between transactions; retriable faults only: every transaction must still end as requested
+    for nodes_ in (2, 3):
+        for api_, nth_ in (("AddPartitionsToTxn", 0), ("AddPartitionsToTxn", 1), ("AddOffsetsToTxn", 0),
+                           ("TxnOffsetCommit", 0), ("EndTxn", 0), ("EndTxn", 1), (None, None)):
+            for end in ("commit", "abort"):
+                k += 1
+                t2 = {"sends": [1, 0], "delays": [0.0, 0.05], "modes": ["s", "s"], "await": True, "offsets": 1,
+                      "end": "commit", "linger": 0}
+                flt = []
+                if api_ is None:
+                    t2["pre"] = "coord_node_down"
+                else:
+                    flt = [{"api": api_, "nth": nth_, "kind": "coord_node_down"}]
+                c_ = case(nodes_, [{"sends": [0, 1], "delays": [0.0, 0.1], "modes": ["s", "s"], "await": k % 2 == 0,
+                                    "offsets": 2, "end": end, "linger": 0}, t2], flt, False, 1000 + k)
+                c_["txn_node"] = 1
+                c_["grp_node"] = k % nodes_
+                out.append(c_)
     # family B
     for code in NONRETRIABLE_PRODUCE[:2]:
         for d in (0.3, 0.8):
@@ -293,6 +316,23 @@ def exact_families():
     return out
 
 
+def coord_node_down(cl):
+    """the broker hosting the transaction coordinator goes down (connects refused, its connections die);
+    the coordinator roles and the partitions it led are taken over by a live broker"""
+    dead = cl.coordinator_for("txn", TXID)
+    alive = [n.id for n in cl.nodes if n.up and n.id != dead]
+    if not alive or not cl.nodes[dead].up:
+        return
+    to = alive[0]
+    cl.move_coordinator("txn", TXID, to, keep_state=True)
+    if cl.coordinator_for("group", GROUP) == dead:
+        cl.move_coordinator("group", GROUP, to, keep_state=True)
+    for tp, leader in sorted(cl.leaders().items()):
+        if leader == dead:
+            cl.set_leader(tp, to)
+    cl.kill_node(dead)
+
+
 def install_faults(env, cluster, case):
     F = env.sim.Fault
     late = []       # catch-all faults go last (the first fault that wants a request gets it)
@@ -306,6 +346,9 @@ def install_faults(env, cluster, case):
             cluster.faults.add(F("delay", api=f["api"], nth=f["nth"], seconds=f["seconds"], tp=tp, count=cnt))
         elif k in ("drop_before", "drop_after", "lose_reply"):
             cluster.faults.add(F(k, api=f["api"], nth=f["nth"]))
+        elif k == "coord_node_down":
+            cluster.faults.add(F("call", api=f["api"], nth=f["nth"], label="coordinator node down, role moved",
+                                 fn=lambda cl, rq: coord_node_down(cl)))
         elif k == "arm_delay":
             def arm(cl, rq, f=f):
                 cl.faults.add(F("delay", api=f["target"], nth=None, seconds=f["seconds"], count=f["count"]))
@@ -325,11 +368,11 @@ def install_faults(env, cluster, case):
         elif k == "move_coord":
             to = f["to"] % case["nodes"]
             cluster.faults.add(F("call", api=f["api"], nth=f["nth"], label=f"move txn coordinator to {to}",
-                                 fn=lambda cl, rq, to=to: cl.move_coordinator("txn", TXID, to, keep_state=True)))
+                                 fn=lambda cl, rq, to=to: cl.nodes[to].up and cl.move_coordinator("txn", TXID, to, keep_state=True)))
         elif k == "move_leader":
             to, tp2 = f["to"] % case["nodes"], (TOPIC, f["tp"])
             cluster.faults.add(F("call", api=f["api"], nth=f["nth"], label=f"move leader of {tp2} to {to}",
-                                 fn=lambda cl, rq, to=to, tp2=tp2: cl.set_leader(tp2, to)))
+                                 fn=lambda cl, rq, to=to, tp2=tp2: cl.nodes[to].up and cl.set_leader(tp2, to)))
     for flt in late:
         cluster.faults.add(flt)
 
@@ -415,6 +458,8 @@ async def run_incarnation(env, cluster, case, i, spec, obs, boot):
         for t, txn in enumerate(spec["txns"]):
             rec = {"inc": i, "t": t, "recs": [], "outcome": "open", "offset": None, "offset_ok": False,
                    "asked": None, "offset_keys": []}
+            if txn.get("pre") == "coord_node_down":
+                coord_node_down(cluster)     # between two transactions
             make_prebuilt(t, "be")      # (first transaction: nothing was being ended)
             make_prebuilt(t, "bp")
             p._message_accumulator._linger_time = txn["linger"] / 1000
@@ -714,6 +759,8 @@ def canon_reqs_ids(env, cluster, case, ids):
     for r in TC.canon_requests(env, [e for e in cluster.trace if e["ev"] != "api"],
                                {f"p{i}" for i in range(len(case["incs"]))}):
         head, code = r.rsplit(":", 1)
+        if code == "noreply":
+            code = "retr"       # never handled (its broker went down / the connection died first): not applied
         if head.startswith("PR"):
             p, recs = head[2:].split(".", 1)
             head = f"PR{p}." + "+".join(f"r{ids[x]}" if x in ids else "r999999" for x in recs.split("+"))
@@ -1116,7 +1163,10 @@ def run(ctx):
         "an appended record that no accepted send produced is refused by the acceptor; slow metadata refreshes; exact "
         "schedules for both (commit/abort racing blocked calls; a re-enqueued batch queued when an authorization error "
         "arrives, then abort, then a new transaction must deliver); in single-incarnation runs without poisoning faults "
-        "every transaction during which no fault fired must end as asked with all sends acknowledged; "
+        "every transaction during which no fault fired must end as asked with all sends acknowledged; the broker "
+        "hosting the transaction coordinator goes down (connects refused) while the role and its partitions move to "
+        "a live broker - 28 exact schedules (at each transactional request type and between transactions) and a "
+        "random fault kind; "
         "non-trivial = >= 1 transaction and >= 10 events. "
         "A: seeded sequential programs of 3..12 calls incl. kill-and-restart with at most one fault, compared with the "
         "API automaton; non-trivial = sends a transactional request. distinct by case text")
